@@ -334,3 +334,81 @@ def fold_rust_inherited_literal(idx: Index):
         except Raised as e:
             names.append(f"<raises {e.exc_name}>")
     return names
+
+
+def fold_python_specials(idx: Index):
+    """Which attribute names the python plugin registers as always-written (`_add_special`) for a structure, an anonymous
+    literal and an `and` type built from synthetic properties: exactly the snake_case names of the null-admitting and
+    string-literal properties, inherited and mixed-in ones included.  -> {case: (got names | problem, expected names)}"""
+    m = idx.get(P_PYUTILS)
+    cls = m.classes.get("TypesCodeGenerator")
+    if cls is None:
+        raise AnalysisError(f"{P_PYUTILS}: TypesCodeGenerator not found")
+    methods = {x.name: x for x in cls.body if isinstance(x, ast.FunctionDef)}
+    null = _ty("base", "null")
+
+    def OR(*items):
+        return Record("OrType", {"kind": "or", "items": list(items), "id_": "or"})
+
+    def prop(owner, name, ty, optional=None):
+        r = _prop(owner, name)
+        r.fields["type"] = ty
+        r.fields["optional"] = optional
+        return r
+
+    def props(owner):
+        return [prop(owner, "rootUri", OR(_ty("base", "DocumentUri"), null)),
+                prop(owner, "kind", Record("StringLiteralType", {"kind": "stringLiteral", "value": "x", "id_": "sl"})),
+                prop(owner, "plainProp", _ty("base", "string"), True),
+                prop(owner, "workDoneToken", OR(_ty("base", "integer"), _ty("base", "string")), True),
+                prop(owner, "maybeNull", OR(null, _ref("Range")), True)]
+    own_expected = ["root_uri", "kind", "maybe_null"]
+
+    def S(name, ps, extends=(), mixins=()):
+        return Record("Structure", {"name": name, "properties": list(ps), "extends": [_ref(x) for x in extends],
+                                    "mixins": [_ref(x) for x in mixins], "documentation": None, "since": None,
+                                    "sinceTags": None, "proposed": None, "deprecated": None, "id_": f"id-{name}"})
+    base = S("Base", [prop("Base", "baseUri", OR(_ty("base", "URI"), null)), prop("Base", "baseName", _ty("base", "string"))])
+    mix = S("Mix", [prop("Mix", "mixKind", Record("StringLiteralType", {"kind": "stringLiteral", "value": "m", "id_": "sl2"}))])
+    sub = S("Sub", props("Sub"), extends=["Base"], mixins=["Mix"])
+    spec = Record("LSPModel", {"structures": [base, mix, sub], "enumerations": [], "typeAliases": [], "requests": [],
+                               "notifications": []})
+    out = {}
+
+    def run(label, mname, args, expected):
+        it = Interp(m.tree, name=P_PYUTILS)
+        it.globals["copy"] = ModuleRef("copy", attrs={"deepcopy": ("host", _deepcopy), "copy": ("host", _shallow)})
+        got = []
+        stubs = {
+            "_has_type": ("host", lambda *a, **k: False),
+            "_add_structure": ("host", lambda *a, **k: None),
+            "_generate_properties": ("host", lambda *a, **k: []),
+            "_get_additional_methods": ("host", lambda *a, **k: None),
+            "_add_type_code": ("host", lambda *a, **k: None),
+            "_add_keyword_class": ("host", lambda *a, **k: None),
+            "_add_special": ("host", lambda c, names: got.append((c, list(names)))),
+            "_lsp_model": spec,
+        }
+        own = {k: v for k, v in methods.items() if k not in stubs}
+        self_rec = Record("TypesCodeGenerator", stubs, {"TypesCodeGenerator": own})
+        it.classes["TypesCodeGenerator"] = own
+        it.globals["_get_since"] = ("host", lambda *a, **k: [])
+        it.globals["_get_indented_documentation"] = ("host", lambda *a, **k: None)
+        if mname not in methods:
+            out[label] = (f"{mname} not found", expected)
+            return
+        try:
+            it.call(methods[mname], [self_rec] + args)
+        except Raised as e:
+            out[label] = (f"raises {e.exc_name}", expected)
+            return
+        names = sorted(n for _c, ns in got for n in ns)
+        out[label] = (names, sorted(expected))
+    lit = Record("LiteralType", {"kind": "literal", "name": "Lit", "documentation": None, "since": None, "sinceTags": None,
+                                 "proposed": None, "deprecated": None, "id_": "lit",
+                                 "value": Record("LiteralValue", {"properties": props("Lit")})})
+    run("literal", "_add_literal_type", [lit], own_expected)
+    run("structure", "_add_structure", [sub, spec], own_expected + ["base_uri", "mix_kind"])
+    and_t = Record("AndType", {"kind": "and", "items": [_ref("Base"), _ref("Sub")], "id_": "and"})
+    run("and", "_add_and_type", [and_t, "AndClass", [base, mix, sub]], own_expected + ["base_uri"])
+    return out
